@@ -411,7 +411,7 @@ impl Server {
 
                         client.state = remote_client::State::Active(remote_client::ActiveState {
                             half_connection,
-                            timeout_time_ms: now_ms + self.config.endpoint_config.active_timeout_ms,
+                            timeout_time_ms: now_ms.saturating_add(self.config.endpoint_config.active_timeout_ms),
                             disconnect_signal: None,
                         });
 
@@ -523,7 +523,7 @@ impl Server {
                         .half_connection
                         .handle_data_frame(frame);
 
-                    state.timeout_time_ms = now_ms + self.config.endpoint_config.active_timeout_ms;
+                    state.timeout_time_ms = now_ms.saturating_add(self.config.endpoint_config.active_timeout_ms);
                 }
                 _ => (),
             }
@@ -545,7 +545,7 @@ impl Server {
                         .half_connection
                         .handle_ack_frame(frame);
 
-                    state.timeout_time_ms = now_ms + self.config.endpoint_config.active_timeout_ms;
+                    state.timeout_time_ms = now_ms.saturating_add(self.config.endpoint_config.active_timeout_ms);
                 }
                 _ => (),
             }
@@ -567,7 +567,7 @@ impl Server {
                         .half_connection
                         .handle_sync_frame(frame);
 
-                    state.timeout_time_ms = now_ms + self.config.endpoint_config.active_timeout_ms;
+                    state.timeout_time_ms = now_ms.saturating_add(self.config.endpoint_config.active_timeout_ms);
                 }
                 _ => (),
             }
